@@ -350,6 +350,7 @@ func join(a, b context, node parse.Node, nodeName string) context {
 	}
 	a.attr.dynamic = a.attr.dynamic || b.attr.dynamic
 	a.element.continued = a.element.continued || b.element.continued
+	a.attr.continued = a.attr.continued || b.attr.continued
 	// e.g. `<a{{if .C}} {{end}}title="x">`: on one path the tag name is still unfinished.
 	a.element.partial = a.element.partial || b.element.partial
 	a.attr.dynamicStart = a.attr.dynamicStart || b.attr.dynamicStart
@@ -437,6 +438,9 @@ func (e *escaper) escapeBranch(c context, n *parse.BranchNode, nodeName string) 
 				err:   errorf(ErrRangeLoopReentry, n, n.Line, "on range loop re-entry: %s must be sanitized differently than in the first iteration", changed),
 			}
 		}
+		// Attribute names that later iterations repeat, as in `<a {{range .}}id{{end}}="x">`,
+		// are not tracked.
+		c1.attr.continued = c0.attr.continued
 		c0 = join(c0, c1, n, nodeName)
 		if c0.state == stateError {
 			// Make clear that this is a problem on loop re-entry
@@ -592,6 +596,9 @@ func mangle(c context, templateName string) string {
 	}
 	if c.element.continued {
 		s += "_elementNameContinued"
+	}
+	if c.attr.continued {
+		s += "_attrNameContinued"
 	}
 	if c.linkRel != "" {
 		s += "_rel(" + strings.TrimSpace(c.linkRel) + ")"
